@@ -76,6 +76,13 @@ def handle (args : List String) : Option String :=
     let join (w pv : String) : String := if w == pv then w else s!"world={w},dep={w},provided={pv}"
     some <| triple (join (implOn tv) (implOn pvText)) (join (specOn tv) (specOn pvText))
       (if bigField tv || bigField p.version then "F03a" else "unlisted")
+  | ["tv.cmp", a, b] =>
+    -- the check on the translator: Go's CompareVersions against its regenerated translation (impl) and the model (spec)
+    let ta := unhexS a; let tb := unhexS b
+    let showI (i : Int) : String := if i = -1 then "lt" else if i = 0 then "eq" else if i = 1 then "gt" else "other"
+    match Impl.parseVersion ta, Impl.parseVersion tb with
+    | some x, some y => some (showI (Generated.Trans.compareVersionsGo x y) ++ "\t" ++ showOrd (compareVersions x y) ++ "\tunlisted")
+    | _, _ => some "err\terr\t-"
   | ["tv.sat", c, v] =>
     -- the check on the Go → Lean translator: Go's SatisfiedBy against the regenerated translation of
     -- `versionDependency.satisfies` (impl) and against the hand-written model (spec); see Proofs/TransVersion.lean
